@@ -574,12 +574,16 @@ def run_natural_gpg(spec, rec, lib):
     def failing_sig(*a, **k):
         raise RuntimeError("gpg subprocess failed")
 
+    def not_ed25519(keyid, homedir=None):
+        # what the real back end returns for an OpenPGP key that GnuPG knows but that is not ed25519 (RSA): no "q"
+        return {"type": "rsa", "method": "pgp+rsa-pkcsv1.5", "keyid": keyid, "keyval": {"private": "", "public": {"e": "010001", "n": "c3" * 256}}}
+
     scenarios = []
     for dn, raw in (("good", good), ("not_json", b"{nope"), ("not_envelope", b'{"a": 1}'), ("list", b"[]"), ("extra_field", json.dumps(dict(json.loads(good), extra=1)).encode()),
                     ("signatures_list", json.dumps({"signatures": [], "signed": md}).encode()),
                     ("late_deep_junk_entry", b'{"signatures": {"zz": ' + b"[" * LATE_DEPTH + b"]" * LATE_DEPTH + b'}, "signed": ' + json.dumps(md).encode() + b"}")):
         for fn, fp in (("good", fpr), ("short", "ab" * 19), ("upper", "AB" * 20), ("nonhex", "zz" * 20), ("int", 5)):
-            for dep in ("stub", "no_sslib", "gpg_fails", "export_fails"):
+            for dep in ("stub", "no_sslib", "gpg_fails", "export_fails", "export_not_ed25519"):
                 if dn == "good" and fn == "good" and dep == "stub":
                     continue
                 scenarios.append((dn, raw, fn, fp, dep))
@@ -593,7 +597,7 @@ def run_natural_gpg(spec, rec, lib):
                 R.SSLIB_AVAILABLE = True
                 R.gpg_funcs = types.SimpleNamespace(
                     create_signature=failing_sig if dep == "gpg_fails" else ns.create_signature,
-                    export_pubkey=failing_sig if dep == "export_fails" else ns.export_pubkey)
+                    export_pubkey=failing_sig if dep == "export_fails" else (not_ed25519 if dep == "export_not_ed25519" else ns.export_pubkey))
             for mode in ("api", "cli"):
                 if mode == "cli" and not isinstance(fp, str):
                     continue
@@ -609,6 +613,14 @@ def run_natural_gpg(spec, rec, lib):
                     rec.violation("atomicity/gpg:%s/file-changed-after-natural-failure/%s-%s-%s" % (mode, dn, fn, dep),
                                   "doc=%s fingerprint=%s dependency=%s: raised %s but the file changed" % (dn, fn, dep, o.cls),
                                   {"kind": "natural_gpg", "doc": dn, "fp": fn, "dep": dep})
+                if dep in ("no_sslib", "gpg_fails", "export_fails", "export_not_ed25519") and after != raw:
+                    # a missing dependency / failing back end / key that is not an ed25519 key: signing cannot have happened
+                    returned_ok = o.accepted and (mode == "api" or o.value in (0, None))
+                    if returned_ok:
+                        rec.violation("atomicity/gpg:%s/unusable-key-or-backend-did-not-fail-and-file-changed/%s" % (mode, dep),
+                                      "doc=%s fingerprint=%s dependency=%s: the call reported success and rewrote the file although no "
+                                      "signature by an ed25519 key can have been made" % (dn, fn, dep),
+                                      {"kind": "natural_gpg", "doc": dn, "fp": fn, "dep": dep})
                 rec.hist("natural_gpg_outcome", "return" if o.accepted else o.cls)
     finally:
         if saved[0] is not None:
